@@ -75,6 +75,28 @@ def parseMomentum : List String → Option (Momentum × List String)
     pure (m, rest)
   | _ => none
 
+def showBody (b : ABody) : String :=
+  " ".intercalate [toString b.version, toString b.chainIdentifier, toString b.blockType, showHex b.hash,
+    showHex b.previousHash, toString b.height, showHex b.momentumAcknowledged.hash,
+    toString b.momentumAcknowledged.height, showHex b.address, showHex b.toAddress, toString b.amount,
+    showHex b.tokenStandard, showHex b.fromBlockHash, showHex b.data, toString b.fusedPlasma,
+    toString b.difficulty, showHex b.nonce, toString b.basePlasma, toString b.totalPlasma, showHex b.changesHash,
+    showHex b.publicKey, showHex b.signature]
+
+mutual
+def showBlock : Block → String
+  | ⟨body, ds⟩ => showBody body ++ " " ++ toString ds.length ++ showBlocks ds
+def showBlocks : List Block → String
+  | [] => ""
+  | d :: ds => " " ++ showBlock d ++ showBlocks ds
+end
+
+def showMomentum (m : Momentum) : String :=
+  " ".intercalate ([toString m.version, toString m.chainIdentifier, showHex m.hash, showHex m.previousHash,
+    toString m.height, toString m.timestampUnix, showHex m.data, showHex m.changesHash, showHex m.publicKey,
+    showHex m.signature, toString m.content.length] ++
+    m.content.flatMap (fun h => [showHex h.address, showHex h.hash, toString h.height]))
+
 /-- oracle for the hash parameter: the pairs (input, digest) supplied by the harness -/
 def oracleH (tbl : List (Bytes × Bytes)) (x : Bytes) : Bytes :=
   match tbl.find? (fun p => p.1 == x) with
@@ -104,6 +126,18 @@ def pureCodec : List String → Option String
       let (m, rest) ← parseMomentum toks
       if !rest.isEmpty then none
       pure (showHex m.serialize)
+  | ["ab-depb", data] => do
+      let d ← ofHex data
+      match deserializeBlock d with
+      | none => pure "err"
+      | some none => pure "panic"
+      | some (some b) => pure ("ok " ++ showBlock b)
+  | ["mom-depb", data] => do
+      let d ← ofHex data
+      match deserializeMomentum d with
+      | none => pure "err"
+      | some none => pure "panic"
+      | some (some m) => pure ("ok " ++ showMomentum m)
   | ["amount-json", a] => do
       let a ← a.toInt?
       let s := showAmount a
